@@ -320,9 +320,30 @@ def check_ogg_last_page(ctx):
                 ctx.violation("ogg:last-page:false-sync:%s" % fmt_name, "length %r, the last page's granule position encodes %r" % (got, want), case)
 
 
+def check_smf_length(ctx):
+    """Standard MIDI File length: a delta-time in front of ANY event advances the time (SMF 1.0), not only in front of channel
+    messages; witness theorem Props/C05_Smf.lean smf_meta_delta_witness (the three further tempo deviations proved there -
+    tempo changes charged to the wrong interval, same-tick tempo events ordered by value, format-1 tempo map taken from the first
+    track that has one - are characterised by the hypothesis `Aligned` of smf_info_decodes_partial)"""
+    import io
+    from mutagen.smf import SMF
+    # division 480; note on, note off after 480 ticks, End of Track after another 480: 960 ticks at the default tempo = 1.0 s
+    data = bytes.fromhex("4d546864000000060000000101e04d54726b0000000e00903c408360803c008360ff2f00")
+    case = {"format": "SMF", "data_hex": data.hex(), "encoded_length_s": 1.0}
+    ctx.case(key=("smf-meta-delta",), nontrivial=True, modelled=True, sample=case)
+    ctx.hist["smf:meta-delta"] += 1
+    try:
+        got = SMF(io.BytesIO(data)).info.length
+    except Exception as e:
+        ctx.violation("SMF:length:raises", "%s: %s" % (type(e).__name__, e), case); return
+    if got != 1.0:
+        ctx.violation("SMF:length:non-channel-delta-ignored", "length %r, the file encodes 1.0 s (960 ticks at 480 per quarter, 500000 us per quarter)" % got, case)
+
+
 def run(ctx):
     ctx.rule = RULE
     check_ogg_last_page(ctx)
+    check_smf_length(ctx)
     check_mpeg(ctx)
     check_mpeg_vbr(ctx)
     check_flac(ctx)
